@@ -174,7 +174,13 @@ def cut_level(rng, hier, labels, den=None):
         return None
     lv, i = rng.choice(cand)
     a, b = hier[lv][i]
-    if den is None:
+    near = rng.random()
+    if near < 0.3:       # a sliver next to one end (a piece shorter than any frame)
+        eps = rng.choice([1 / 64.0, 1 / 128.0, 1 / 1024.0]) if den is None else 1.0 / den
+        m = b - eps if near < 0.15 else a + eps
+        if not a < m < b:
+            return None
+    elif den is None:
         m = a + (b - a) * (0.05 + 0.9 * rng.random())
         if not a < m < b:
             return None
@@ -380,7 +386,7 @@ def search(C, S, H, rng, budget=200):
         else:
             comps = [rng.choice([1.0, 0.0, -1.0]) for _ in range(n)]
         weights = [rng.choice([0.0, 1.0, rng.randint(1, 640) / 64.0]) for _ in range(n)]
-        note(check_weighted_accuracy(C, comps, weights, rng.choice([2.0, 0.5, 4.0, 0.125, 3.0, 1e-3, 1e3])))
+        note(check_weighted_accuracy(C, comps, weights, rng.choice([2.0, 0.5, 4.0, 0.125, 3.0, 1e-3, 1e3, 1e-9, 1e-12, 2.0 ** -40, 1e9])))
         cases['weighted_accuracy'] += 1
     search.cases = cases
     return [f for _, f in sorted(best.values(), key=lambda x: x[0])]
